@@ -9,6 +9,7 @@ def C02_units : List (String × String) := [
   ("sanitize.go/var/dataAttribute,dataAttributeXMLPrefix,dataAttributeInvalidChars,cssUnicodeChar,da", "2545e9727a056a18"),
   ("sanitize.go/func/*Policy.sanitize/case:html.StartTagToken", "06e5b6a502de1bc0"),
   ("sanitize.go/func/*Policy.sanitize/case:html.SelfClosingTagToken", "579a9bca378883dd"),
+  ("sanitize.go/func/*Policy.sanitize/around-switch", "cd2e2ace16007f49"),
   ("sanitize.go/func/*Policy.sanitizeAttrs/signature", "d913fc8aa3d2005f"),
   ("sanitize.go/func/*Policy.sanitizeAttrs/if:len(attrs) == 0", "c54c2c729dfa58ef"),
   ("sanitize.go/func/*Policy.sanitizeAttrs/assign:hasStylePolicies", "d8da24d0fbb0b241"),
